@@ -19,7 +19,7 @@ RULE = (
     "and zero-mean variants); the real solver is constructed and solve()/vector_field_solve() called. Oracle: an independent "
     "operator L u = sum_axes (2u - u+ - u-)/dx^2 with edge replication (homogeneous Neumann at the faces): solution dtype is "
     "the real working precision, no ComplexWarning-free requirement is imposed; |mean(u)| <= 200 n eps max|u|; "
-    "max|L u - (f - mean f)| <= 200 n eps max|f| (n = largest extent); vector solve == three scalar solves bit-wise; rhs "
+    "max|L u - (f - mean f)| <= 64 (n^2/10 + n) eps max|f| (n = largest extent; the solution scales with n^2); vector solve == three scalar solves bit-wise; rhs "
     "unchanged. Non-trivial: non-square/non-cubic shape and a right-hand side that is neither constant nor zero. "
     "Distinct = digest of case."
 )
@@ -62,7 +62,9 @@ def _check_one(u, f, dx, real_t, what, n):
     r = float(np.max(np.abs(res)))
     # dense eigen-decomposition + three matrix products per axis: the residual grows like n * eps * max|f|; the constant
     # 50 planned in DESIGN was exceeded by 20% on 27x14 and 2x12x24 grids of the thorough tier, 200 leaves a factor ~3
-    tol = 200 * n * eps * fmax + tiny / dx**2
+    # (thorough tier, 135 x 2 grid: 215 n eps) the solution is as large as max|f| dx^2 n^2/pi^2 (smallest non-zero eigenvalue), its
+    # rounding error enters the residual divided by dx^2: the scale is n^2/pi^2 for long axes, n for short ones
+    tol = 64 * (n * n / 10.0 + n) * eps * fmax + tiny / dx**2
     return r, tol
 
 
